@@ -64,10 +64,13 @@ class DataCase(object):
     def __init__(self, rng, idx):
         self.sbml = idx % 3 == 0
         self.n_ids = int(rng.integers(1, 7))
+        if rng.random() < 0.08:
+            # (ten and more individuals: '10' sorts before '2')
+            self.n_ids = int(rng.integers(10, 14))
         self.id_style = ['int', 'str', 'float'][int(rng.integers(3))]
         self.labels = []
         for i in range(self.n_ids):
-            self.labels.append({'int': 10 + 3 * i, 'str': 'pat-%s' % 'abcdefg'[i],
+            self.labels.append({'int': 1 + 3 * i, 'str': 'pat-%s' % 'abcdefghijklmnop'[i],
                                 'float': float(i + 1)}[self.id_style])
         perm = rng.permutation(self.n_ids)
         self.labels = [self.labels[i] for i in perm]
